@@ -11,17 +11,27 @@ import (
 
 // Frame: what a call may modify.
 type Frame struct {
-	top   bool
-	arrs  map[string]bool
-	facts map[string]bool
+	top        bool
+	callsParam bool // invokes a function-typed parameter: the caller adds the argument closure's frame
+	why        string
+	paramDeps  map[*ssa.Parameter]bool
+	arrs       map[string]bool
+	facts      map[string]bool
 }
 
-func newFrame() *Frame { return &Frame{arrs: map[string]bool{}, facts: map[string]bool{}} }
+func newFrame() *Frame {
+	return &Frame{arrs: map[string]bool{}, facts: map[string]bool{}, paramDeps: map[*ssa.Parameter]bool{}}
+}
 
 func (f *Frame) union(o *Frame) bool {
 	ch := false
 	if o.top && !f.top {
 		f.top = true
+		f.why = o.why
+		ch = true
+	}
+	if o.callsParam && !f.callsParam {
+		f.callsParam = true
 		ch = true
 	}
 	for a := range o.arrs {
@@ -33,6 +43,15 @@ func (f *Frame) union(o *Frame) bool {
 	for a := range o.facts {
 		if !f.facts[a] {
 			f.facts[a] = true
+			ch = true
+		}
+	}
+	for p := range o.paramDeps {
+		if f.paramDeps == nil {
+			f.paramDeps = map[*ssa.Parameter]bool{}
+		}
+		if !f.paramDeps[p] {
+			f.paramDeps[p] = true
 			ch = true
 		}
 	}
@@ -288,7 +307,31 @@ func (g *Gen) callFrame(c *ssa.CallCommon) *Frame {
 		if g.pureIfaceMethod(c) {
 			return fr
 		}
-		fr.top = true
+		if g.inModule(c.Method.Pkg()) {
+			if it, ok := c.Value.Type().Underlying().(*types.Interface); ok {
+				impls := g.implementations(it, c.Method)
+				if len(impls) > 0 {
+					for _, f := range impls {
+						sub := newFrame()
+						sub.union(g.funcFrame(f))
+						g.resolveDeps(sub, f, c.Args, true)
+						fr.union(sub)
+					}
+					if fr.callsParam {
+						fr.callsParam = false
+						for _, a := range c.Args {
+							if _, isFn := a.Type().Underlying().(*types.Signature); isFn {
+								fr.union(g.fnValueFrame(a))
+							}
+						}
+					}
+					return fr
+				}
+			}
+			fr.top = true
+			return fr
+		}
+		fr.union(g.argsReach(c.Args, nil))
 		return fr
 	}
 	switch v := c.Value.(type) {
@@ -311,11 +354,31 @@ func (g *Gen) callFrame(c *ssa.CallCommon) *Frame {
 		}
 		return fr
 	case *ssa.Function:
-		return g.funcFrame(v)
+		if len(v.Blocks) == 0 {
+			if isPureExternal(v) || g.trusted[v.String()] != nil && g.trusted[v.String()].pure {
+				return fr
+			}
+			if con := g.contracts[g.fnName(v)]; con != nil && con.Modifies != nil {
+				return con.frame(g)
+			}
+			return g.argsReach(c.Args, nil)
+		}
+		fr.union(g.funcFrame(v))
+		g.resolveDeps(fr, v, c.Args, false)
+		if fr.callsParam {
+			fr.callsParam = false
+			for _, a := range c.Args {
+				if _, isFn := a.Type().Underlying().(*types.Signature); isFn {
+					fr.union(g.fnValueFrame(a))
+				}
+			}
+		}
+		return fr
 	case *ssa.MakeClosure:
-		return g.funcFrame(v.Fn.(*ssa.Function))
+		fr.union(g.funcFrame(v.Fn.(*ssa.Function)))
+		return fr
 	}
-	fr.top = true
+	fr.union(g.fnValueFrame(c.Value))
 	return fr
 }
 
@@ -389,8 +452,18 @@ func (g *Gen) computeFrame(fn *ssa.Function) bool {
 	changed := false
 	for _, b := range fn.Blocks {
 		for _, in := range b.Instrs {
+			wasTop := fr.top
 			if fr.union(g.instrFrame(fn, in)) {
 				changed = true
+			}
+			if fr.top && !wasTop {
+				w := fr.why
+				if ci, ok := in.(ssa.CallInstruction); ok {
+					fr.why = calleeShort(ci.Common()) + " <- " + w
+				}
+				if len(fr.why) > 300 {
+					fr.why = fr.why[:300]
+				}
 			}
 			if mc, ok := in.(*ssa.MakeClosure); ok {
 				// a closure created here may be invoked by callees: be conservative only when it is called directly (handled at call)
@@ -530,6 +603,7 @@ func calleeShort(c *ssa.CallCommon) string {
 }
 
 func (fc *FnCtx) applyFrame(st *State, fr *Frame) {
+	fr = fc.g.closeDeps(fr)
 	if fr.top {
 		st.havocAll()
 	} else if len(fr.arrs) > 0 {
@@ -705,6 +779,9 @@ func (fc *FnCtx) applyContract(st *State, in ssa.Instruction, c *ssa.CallCommon,
 		}
 	}
 	for _, e := range con.Ensures {
+		if hasGhost(e.Expr) {
+			continue // speaks about the callee's own call log
+		}
 		t, err := fc.evalBool(post, e.Expr)
 		if err != nil {
 			fc.err = fmt.Errorf("%s: call %s ensures %q: %v", fc.name, key, e.Text, err)
